@@ -42,6 +42,8 @@ CHECKS = {
          "exploration over operation sequences and pool sizes", "pigeonhole argument needs all max requests inside rule bodies at once (checked, else inconclusive)", "4 C16"),
  "C17": ("exploration", "E3 pool storms", "runtime monitoring: injected gate counts rule bodies in flight; hook-fed shadow of the free / in-flight sets under the pool's own locks; conservation at quiescence; bounded-progress checks for waiters and re-saturation",
          "exploration over arrival orders, faults (rule errors, panicking functions) and pool sizes", "the only wall-clock verdicts are 20 s progress bounds (normal latency < 1 ms)", "4 C17"),
+ "C09": ("fault_enumeration", "E2 trace monitor + fault catalog", "runtime monitoring with fault injection by construction: complete fault-kind x construct catalog driven through all entry points in child processes with journals (panic into the caller, process death, hang, nil error after a fault, policy for the healthy rules, healthy follow-up call), plus random ill-typed programs",
+         "the catalog part enumerates a finite fault list completely (thorough: x all 45 entry points); the random part explores", "a fault is injected by writing the faulty construct into the rule; hang bound 30 s per case", "4 C09"),
  "C15": ("exploration", "E2 trace monitor", "runtime monitoring: rules sharing local names, readers-before-write must fault and writers must get their own value back, in every model, repeated calls and concurrent duplicates",
          "exploration", "a leak must change a returned value or let a reader succeed to be seen", "4 C15"),
 }
